@@ -93,12 +93,14 @@ func (v *VStruct) Valid(src interface{}) error {
 		return errors.New("src is nil")
 	}
 
-	reflectValue := RemoveValuePtr(reflect.ValueOf(src))
-	switch reflectValue.Kind() {
-	case reflect.Ptr:
+	reflectValue := reflect.ValueOf(src)
+	for reflectValue.Kind() == reflect.Ptr {
 		if reflectValue.IsNil() {
 			return errors.New("src \"" + reflectValue.Type().String() + "\" is nil")
 		}
+		reflectValue = reflectValue.Elem()
+	}
+	switch reflectValue.Kind() {
 	case reflect.Slice, reflect.Array:
 		var structName string
 		for i := 0; i < reflectValue.Len(); i++ {
@@ -134,6 +136,9 @@ func (v *VStruct) getValidFn(validName string) (CommonValidFn, error) {
 // isValidGatherObj 是否验证集合对象, 包含: slice/array/map
 func (v *VStruct) validate(structName string, value reflect.Value, isValidGatherObj ...bool) *VStruct {
 	tv := RemoveValuePtr(value)
+	if !tv.IsValid() { // nil 指针没有可验证的内容
+		return v
+	}
 	ty := tv.Type()
 	// fmt.Printf("ty: %v, structName: %q\n", ty, structName)
 	// 如果不是结构体就退出
